@@ -18,6 +18,7 @@ import (
 	"os"
 	"path/filepath"
 	"regexp"
+	"sort"
 	"strings"
 
 	"github.com/DavidGamba/go-getoptions/internal/help"
@@ -368,7 +369,7 @@ func (gopt *GetOpt) Parse(args []string) ([]string, error) {
 		// If the help is called, don't check for required options since the program wont run.
 		if gopt.finalNode.HelpCommandName == "" || !gopt.Called(gopt.finalNode.HelpCommandName) {
 			// Validate required options
-			for _, option := range node.ChildOptions {
+			for _, option := range sortedOptions(node.ChildOptions) {
 				err := option.CheckRequired()
 				if err != nil {
 					return nil, fmt.Errorf("%w%s", ErrorParsing, err.Error())
@@ -397,7 +398,7 @@ func (gopt *GetOpt) Dispatch(ctx context.Context, remaining []string) error {
 		return ErrorHelpCalled
 	}
 	// Validate required options
-	for _, option := range gopt.finalNode.ChildOptions {
+	for _, option := range sortedOptions(gopt.finalNode.ChildOptions) {
 		err := option.CheckRequired()
 		if err != nil {
 			return fmt.Errorf("%w%s", ErrorParsing, err.Error())
@@ -417,4 +418,18 @@ func (gopt *GetOpt) Dispatch(ctx context.Context, remaining []string) error {
 	}
 	fmt.Fprint(Writer, gopt.Help())
 	return nil
+}
+
+// sortedOptions - Returns the options of the map ordered by map key so that iteration order is fixed.
+func sortedOptions(m map[string]*option.Option) []*option.Option {
+	keys := make([]string, 0, len(m))
+	for k := range m {
+		keys = append(keys, k)
+	}
+	sort.Strings(keys)
+	options := make([]*option.Option, 0, len(m))
+	for _, k := range keys {
+		options = append(options, m[k])
+	}
+	return options
 }
